@@ -138,6 +138,20 @@ structure World where
   /-- `subprocess.run(["objdump"] + args + [path])`, stdout on success -/
   objdump : List Str → Str → M Str
 
+/-- Python's text layer (`open(path, "r")`, `subprocess.run(..., text=True)`): universal newlines,
+`\r\n` and a lone `\r` both arrive as `\n` -/
+def universalNewlines : Str → Str
+  | [] => []
+  | '\r' :: '\n' :: t => '\n' :: universalNewlines t
+  | '\r' :: t => '\n' :: universalNewlines t
+  | c :: t => c :: universalNewlines t
+
+/-- the world of a file system holding raw file contents and of a disassembler printing raw output:
+both reach the code through Python's text layer -/
+def World.ofRaw (rawRead : Str → M Str) (rawObjdump : List Str → Str → M Str) : World :=
+  { readFile := fun p => (rawRead p).map universalNewlines,
+    objdump := fun args p => (rawObjdump args p).map universalNewlines }
+
 structure Op where
   /-- outcome of opening and YAML-loading the rule file -/
   doc : M Y
